@@ -25,8 +25,12 @@ def main():
         res.oracle_fail.append({'group': 'wire', 'case': shape_line[meta[cid][0]] + '\n' + case_line[cid], 'what': f"ORACLE-FAIL {cid} {msg}", 'signature': sig or msg})
     nobs = 0
     if dg:
-        rc, impl = run_lines([dg, f1], timeout=3000)
-        if rc != 0: res.add_broken('correspondence', 'wire harness run', ' '.join(impl[-2:])[:300])
+        rc, impl, crashed = run_cases(dg, f1, timeout=3000)
+        for cl, err in crashed:
+            cid = cl.split()[1]
+            fail(cid, f"the process ABORTS while the diffs of this pair are serialized and decoded again: {err[:200]}", 'abort while encoding/decoding own bytes')
+        if rc != 0 and not crashed: res.add_broken('correspondence', 'wire harness run', ' '.join(impl[-2:])[:300])
+        crashed_ids = {cl.split()[1] for cl, _ in crashed}
         obs, _ = split_oracle(impl)
         obs = canon_impl_lines(obs, by, meta)
         per = {}
@@ -35,13 +39,17 @@ def main():
         nobs = len(obs)
         # (1) the implementation alone: the borrowed form decodes as the owned type and has the effect of the in-memory diff
         for cid, m in meta.items():
+            if cid in crashed_ids: continue
             o = per.get(cid, {})
+            if cid not in per:
+                if rc != 0: continue          # the run ended early: already reported
             for t in ('N', 'B'):
                 codec = 'nanoserde' if t == 'N' else 'bincode'
-                if o.get('AW' + t) == 'UNDECODABLE' or ('AW' + t) not in o:
-                    fail(cid, f"the serialized DiffRef does not decode as the owned diff ({codec})", f"undecodable {codec}"); continue
-                if o.get('AW' + t) != o.get('A'): fail(cid, f"decoded {codec} DiffRef applied to a gives {o.get('AW' + t)}, the in-memory diff gives {o.get('A')}", f"effect differs {codec}")
-                if o.get('XW' + t) != o.get('X'): fail(cid, f"decoded {codec} DiffRef applied to an equivalent base gives {o.get('XW' + t)}, the in-memory diff gives {o.get('X')}", f"effect on equivalent base differs {codec}")
+                for form, W in (('DiffRef', 'W'), ('Diff', 'O')):
+                    if o.get('A' + W + t) == 'UNDECODABLE' or ('A' + W + t) not in o:
+                        fail(cid, f"the serialized {form} does not decode as the owned diff ({codec})", f"undecodable {form} {codec}"); continue
+                    if o.get('A' + W + t) != o.get('A'): fail(cid, f"decoded {codec} {form} applied to a gives {o.get('A' + W + t)}, the in-memory diff gives {o.get('A')}", f"effect of {form} differs {codec}")
+                    if o.get('X' + W + t) != o.get('X'): fail(cid, f"decoded {codec} {form} applied to an equivalent base gives {o.get('X' + W + t)}, the in-memory diff gives {o.get('X')}", f"effect of {form} on equivalent base differs {codec}")
         # (2) the model decodes the implementation's bytes (owned and borrowed, both formats): same entries as the in-memory diff
         if drv:
             f2 = os.path.join(WORK, f'cases_{PROP}_dec.txt')
@@ -85,12 +93,15 @@ def main():
                     if l.startswith('SHAPE'): fh.write(l + '\n')
                 for cid, m in meta.items():
                     if cid in me: fh.write(f"WIRE {cid} {m[0]} A {G.vtext(m[1])} NS {me[cid].get('NSM') or '-'} BC {me[cid].get('BCM') or '-'}\n")
-            rc, back = run_lines([dg, f4], timeout=3000)
+            rc, back, crashed_b = run_cases(dg, f4, timeout=3000)
+            for cl, err in crashed_b[:1]:
+                res.add_broken('correspondence', "the implementation ABORTS while decoding the model's bytes", f"{cl[:300]} | {err[:200]}")
             bobs = canon_impl_lines_tags(back, by, meta)
             nb = 0
             for cid, m in meta.items():
                 o = per.get(cid, {}); bo = bobs.get(cid, {})
                 for t in ('N', 'B'):
+                    if cid in {c.split()[1] for c, _ in crashed_b}: continue
                     if bo.get('DM' + t) == 'UNDECODABLE' or ('DM' + t) not in bo:
                         nb += 1
                         if nb == 1: res.add_broken('correspondence', "the implementation cannot decode the model's bytes", f"{shape_line[m[0]]} | {case_line[cid][:200]} | format {t}")
@@ -106,7 +117,7 @@ def main():
     res.coverage['shapes'] = len(shapes); res.coverage['input_distribution'] = dist
     res.samples = [l[:300] for l in lines[:2]]
     res.rule = ("derive-level workload on shapes whose containers both codecs can encode, built with nanoserde + serde + debug_diffs: for every pair the owned diff and the borrowed diff are serialized with both codecs; "
-                "(1) the borrowed bytes are decoded as the owned type and applied to a and to an equivalent base (oracle: same result as the in-memory diff); (2) the Coq byte model decodes all four byte strings "
+                "(1) the borrowed AND the owned bytes are decoded as the owned type and applied to a and to an equivalent base (oracle: same result as the in-memory diff; a process abort while decoding own bytes is a failure of that pair); (2) the Coq byte model decodes all four byte strings "
                 "and must read the entries of the in-memory diff; (3) the model encodes its own diff and /repo decodes and applies it. non-trivial = distinct pairs with a != b")
     return finish(res, None)
 
